@@ -296,13 +296,13 @@ theorem executeUod_spec {s : State} (h : Core s) (hfix : s.cfg.fixCancel = true)
       -- the parser rejects the arguments: the request is done and fails; nothing is initialised
       simp only [↓reduceIte]
       apply wrap
-      generalize hS : keepStale s2 k r.id = sS
-      have hSo : sS.objs = s2.objs := by rw [← hS]; rfl
-      have hSe : sS.events = s2.events := by rw [← hS]; rfl
-      have hSx : sS.executing = s2.executing := by rw [← hS]; rfl
-      have hSd : sS.done = s2.done := by rw [← hS]; rfl
-      have hSc : sS.cfg = s2.cfg := by rw [← hS]; rfl
-      have hSv : view sS = view s2 := by rw [← hS]; rfl
+      generalize hS : rejectInst s2 k r.id = sS
+      have hSo : sS.objs = s2.objs := by rw [← hS]; unfold rejectInst; split <;> rfl
+      have hSe : sS.events = s2.events := by rw [← hS]; unfold rejectInst; split <;> rfl
+      have hSx : sS.executing = s2.executing := by rw [← hS]; unfold rejectInst; split <;> rfl
+      have hSd : sS.done = s2.done := by rw [← hS]; unfold rejectInst; split <;> rfl
+      have hSc : sS.cfg = s2.cfg := by rw [← hS]; unfold rejectInst; split <;> rfl
+      have hSv : view sS = view s2 := by rw [← hS]; unfold rejectInst; split <;> rfl
       have hdn : ∀ i, i ∈ (markDone sS r).done ↔ i ∈ s2.done ∨ i = r.id := by
         intro i
         rw [markDone_done_mem, hSd, hSx]
